@@ -525,13 +525,19 @@ func (dd *msgpipelineDelivery) BodyNonAtomic(ctx context.Context, c module.Statu
 func (dd msgpipelineDelivery) Commit(ctx context.Context) error {
 	dd.close()
 
+	var commitErr error
 	for _, delivery := range dd.deliveries {
-		if err := delivery.Commit(ctx); err != nil {
-			// No point in Committing remaining deliveries, everything is broken already.
-			return err
+		if commitErr != nil {
+			// No point in Committing remaining deliveries, everything is broken
+			// already. Do not leave them open, though.
+			if err := delivery.Abort(ctx); err != nil {
+				dd.log.Debugf("delivery.Abort failure, Delivery object = %T: %v", delivery, err)
+			}
+			continue
 		}
+		commitErr = delivery.Commit(ctx)
 	}
-	return nil
+	return commitErr
 }
 
 func (dd *msgpipelineDelivery) close() {
